@@ -50,6 +50,19 @@ pub struct Cfg {
 }
 
 pub fn gen(rng: &mut Prng) -> Cfg {
+    if rng.chance(0.004) {
+        // an extreme but valid rate: thousands of permits per microsecond-scale period, bursts
+        // exactly on the window boundaries, no waiting
+        let l = *rng.pick(&[1000usize, 3000]);
+        let p_us = *rng.pick(&[1u64, 2]);
+        let win = *rng.pick(&[Win::Counter, Win::Counter, Win::Fixed, Win::Log]);
+        let seq = vec![
+            SeqStep { gap_us: 0, sub_us: 0, burst: l as u32 },
+            SeqStep { gap_us: 0, sub_us: p_us, burst: 2 * l as u32 },
+            SeqStep { gap_us: 0, sub_us: p_us, burst: l as u32 + 7 },
+        ];
+        return Cfg { preset: "builder", win, l, p_us, timeout_us: 0, groups: 1, callers: vec![], seq };
+    }
     let roll = rng.below(100);
     let (preset, win, l, p_us, timeout_us): (&'static str, Win, usize, u64, u64) = if roll < 4 {
         ("per_second", Win::Fixed, *rng.pick(&[1usize, 2, 5]), 1_000_000, 100_000)
